@@ -138,8 +138,18 @@ func hrefsIn(n *xmltree.Node, out *[]string) {
 }
 
 // exposure lists what of the current user's resources a response shows.
-func (r *rig) exposure(o *observed) []string {
+func (r *rig) exposure(o *observed) []string { return r.exposureExcept(o, "") }
+
+// exposureExcept is exposure, not counting an href / Location that merely
+// repeats the path skip (in either trailing-slash spelling).
+func (r *rig) exposureExcept(o *observed, skip string) []string {
 	var leaks []string
+	skipA, skipB := "", ""
+	if skip != "" {
+		skipA = strings.TrimSuffix(skip, "/")
+		skipB = skipA + "/"
+	}
+	shown := func(p string) bool { return r.own[p] && !(skip != "" && (p == skipA || p == skipB)) }
 	for _, m := range r.markers {
 		if bytes.Contains(o.body, []byte(m)) {
 			leaks = append(leaks, "content marker "+m)
@@ -149,14 +159,14 @@ func (r *rig) exposure(o *observed) []string {
 		var hrefs []string
 		hrefsIn(root, &hrefs)
 		for _, h := range hrefs {
-			if r.own[h] {
+			if shown(h) {
 				leaks = append(leaks, fmt.Sprintf("href %q", h))
 			}
 		}
 	}
 	for _, k := range []string{"Location", "Content-Location"} {
 		if v := o.hdr.Get(k); v != "" {
-			if p, err := davx.HrefPath(v); err == nil && r.own[p] {
+			if p, err := davx.HrefPath(v); err == nil && shown(p) {
 				leaks = append(leaks, fmt.Sprintf("%s header %q", k, v))
 			}
 		}
@@ -462,31 +472,50 @@ func (r *rig) judgePutArgs(c doubles.Call, out *[]anomaly) {
 	}
 }
 
-// execReq runs one "req" case and reports.
+// execReq runs one "req" case on a handler of its own and reports.
 func execReq(c *fw.Ctx, cs *Case) {
 	if !cs.valid() {
 		c.Inconclusive("C12: generated a case outside the domain")
 		return
 	}
-	r := build(cs)
+	r := build(cs, "")
+	runReq(c, r, &doubles.InProc{Handler: r.h, Record: true}, nil, true)
+}
+
+// runReq sends the request r.cs describes through ip (whose handler serves
+// r's backend double) and judges it for r's user. other, when set, is another
+// user served by the same handler: nothing of theirs may show.
+func runReq(c *fw.Ctx, r *rig, ip *doubles.InProc, other *rig, journal bool) {
+	cs := r.cs
 	p := r.reqPath()
 	req, err := r.request(p)
 	if err != nil {
 		c.Inconclusive(fmt.Sprintf("C12: cannot build request for %q: %v", p, err))
 		return
 	}
-	ip := &doubles.InProc{Handler: r.h, Record: true}
 	var resp *http.Response
 	var derr error
-	c.Journal(cs)
+	if journal {
+		c.Journal(cs)
+	}
+	r.calls()
+	ip.Exchanges()
 	panicked, pv, stack := fw.Guard(func() { resp, derr = ip.Do(req) })
-	c.JournalDone()
+	if journal {
+		c.JournalDone()
+	}
 	c.Eval(1)
 	lv := fmt.Sprintf("L%d", cs.Level)
 	if cs.Level > 5 {
 		lv = "L5+"
 	}
 	form := cs.Method
+	if cs.Spelling != "" {
+		form += ",respelled-target"
+	}
+	if r.session != nil {
+		form += ",multi-user"
+	}
 	if panicked {
 		c.Report(fmt.Sprintf("%s|%s|%s|panic:%s", cs.Server, lv, form, fw.PanicSite(stack)), fmt.Sprintf("handler panicked: %v", pv), r.witness(p, nil))
 		return
@@ -504,8 +533,18 @@ func execReq(c *fw.Ctx, cs *Case) {
 		c.Inconclusive(fmt.Sprintf("C12: handler saw path %q, intended %q", ex[0].Path, p))
 		return
 	}
+	target := ex[0].Target
+	if want := spell(p, cs.Spelling); target != want {
+		c.Inconclusive(fmt.Sprintf("C12: request target on the wire is %q, intended spelling %q", target, want))
+		return
+	}
 	o := &observed{status: resp.StatusCode, hdr: resp.Header, body: ex[0].RespBody, calls: r.calls()}
 	anoms, checked := r.judge(p, o)
+	if other != nil {
+		if l := other.exposureTo(o, p); len(l) > 0 {
+			anoms = append(anoms, anomaly{"exposes-another-user", fmt.Sprintf("response to user %s shows resources of user %s: %q", r.user, other.user, l)})
+		}
+	}
 
 	rel := cs.Target
 	if cs.Target == "own" && cs.Level >= 1 && cs.Level <= 4 {
@@ -516,10 +555,21 @@ func execReq(c *fw.Ctx, cs *Case) {
 		}
 	}
 	cell := fmt.Sprintf("%s|%s|%s", cs.Server, cs.Method, lv)
+	spelling := "canonical"
+	if cs.Spelling != "" {
+		spelling = cs.Spelling
+		if target == spell(p, "") {
+			spelling += " (coincides with canonical)"
+		}
+	}
 	if checked {
 		c.Observe("cells_checked", cell+"|"+rel, 1)
-		c.Distinct(fmt.Sprintf("%s|%s|%s|%s|%v|p%d|%v|%v%v%v|%s", cell, cs.Form, cs.Depth, rel, cs.Slash, len(cs.Prefix), cs.PrefixSlash,
-			cs.Layout.PSlash, cs.Layout.HSlash, cs.Layout.CSlash, nameClass(p)))
+		c.Distinct(fmt.Sprintf("%s|%s|%s|%s|%v|p%d|%v|%v%v%v|%s|%s|%v", cell, cs.Form, cs.Depth, rel, cs.Slash, len(cs.Prefix), cs.PrefixSlash,
+			cs.Layout.PSlash, cs.Layout.HSlash, cs.Layout.CSlash, nameClass(p), cs.Spelling, r.session != nil))
+		c.Observe("request_target_spelling(judged cells)", spelling, 1)
+		if r.session != nil {
+			c.Observe("multi_user_requests(judged cells)", fmt.Sprintf("%s|user %s|%s|%s", cs.Server, r.user, cs.Method, lv), 1)
+		}
 	} else {
 		c.Observe("cells_dont_care", cell, 1)
 		same := "no-path-call"
@@ -543,13 +593,21 @@ func execReq(c *fw.Ctx, cs *Case) {
 		c.Sample(r.witness(p, o))
 	}
 	for _, a := range anoms {
-		c.Report(fmt.Sprintf("%s|%s|%s|%s", cs.Server, lv, form, a.kind), a.what, r.witness(p, o))
+		w := r.witness(p, o)
+		w["request_target"] = target
+		c.Report(fmt.Sprintf("%s|%s|%s|%s", cs.Server, lv, form, a.kind), a.what, w)
 	}
 }
+
+// exposureTo lists what of r's user a response to ANOTHER user's request for
+// path p shows. An href that merely repeats the request path is not counted.
+func (r *rig) exposureTo(o *observed, p string) []string { return r.exposureExcept(o, p) }
 
 func (r *rig) witness(p string, o *observed) map[string]interface{} {
 	w := map[string]interface{}{
 		"case":           r.cs,
+		"user":           r.user,
+		"session":        r.session,
 		"handler_prefix": fmt.Sprintf("%q", r.cs.handlerPrefix()),
 		"request_path":   fmt.Sprintf("%q", p),
 		"backend": map[string]interface{}{
